@@ -141,6 +141,9 @@ func genC01(seed uint64, tier string) *plan.Plan {
 				}
 			}
 			pl.Ops = append(pl.Ops, op)
+			if tr == 1 && r.IntN(8) == 0 {
+				pl.Ops = append(pl.Ops, plan.Op{K: "emptydgram", T: sess})
+			}
 			if burst > 0 {
 				burst--
 				continue
